@@ -1,4 +1,5 @@
 import Golem.Props.C12
+import Golem.Props.C12Gen
 open Golem.Props.C12
 #print axioms copy_run
 #print axioms join_fifo
@@ -7,3 +8,8 @@ open Golem.Props.C12
 #print axioms join_close_only_after
 #print axioms join_closed_inputs_closed
 #print axioms join_closes
+#print axioms gen_join_pool
+#print axioms join_complete_gen
+#print axioms Golem.Props.Stage.PipeJoin.stage_gen
+#print axioms Golem.Props.Stage.PipeJoin.cfg_gen
+#print axioms Golem.Props.Stage.PipeJoin.init_gen
